@@ -593,7 +593,7 @@ fn load_sparse(rng: &mut Rng, specs: Specs, regime: WeightRegime, variant: u8) -
                 pairs.push(if !specs.directed && rng.chance(1, 2) { (p.1, p.0) } else { p });
             }
         }
-        if rng.chance(1, 2) {
+        if rng.chance(3, 4) {
             let p = *rng.pick(&pairs);
             for _ in 0..rng.range(1030, 1500) {
                 pairs.push(p);
@@ -739,6 +739,12 @@ pub fn gen_huge_history_v(rng: &mut Rng, specs: Specs, regime: WeightRegime, der
                 Op::Subgraph(s)
             }
         };
+        g.model.apply(&op);
+        ops.push(op);
+    }
+    if derived && specs.multi && g.rng.chance(2, 3) {
+        // groups of parallel edges (one of them may hold more than a thousand) are collapsed at the end
+        let op = Op::ToSingle;
         g.model.apply(&op);
         ops.push(op);
     }
